@@ -339,7 +339,7 @@ ASSUME = ['each migration body is atomic and its down inverts its up (bodies of 
 
 def main(argv):
     return run_check('C18', [RecordingStream(), SqlSetStream(), MongoSetStream()], argv, trusted_base=TRUSTED, assumptions=ASSUME,
-                     translated=('migration', 'pin_sqlmig', 'pin_mongo'))
+                     translated=('migration', 'on_generated', 'pin_sqlmig', 'pin_mongo'))
 
 
 if __name__ == '__main__':
